@@ -146,6 +146,14 @@ CHECKS["C16"] = dict(
     design="5/C16",
 )
 
+CHECKS["C02"] = dict(
+    engine="E1-config-lattice",
+    technique="enumeration of spec family x level x rho_mult x plan x ladder x interpolator x nspin states; fast paths at three refinement levels vs brute-force quadrature of the documented integrals on evaluation-point-centred Becke grids; path-to-path edge relations",
+    text="For every allowed spec of versions j, i (scalar and vector, every dot incl. the density gradient), ij and k, at GGA and meta-GGA level, with rho_mult one/expnt, Gaussian and spline plans, etb/zexp ladders, the three interpolator back ends and nspin 1/2 (deviations<=1 plus the full products family x plan x interpolator and family x level x rho_mult; everything in thorough), the features returned by the real generator at ~28 grid points spanning densities above 1e-3 are compared with a brute-force quadrature of the documented integral (own transcription of the kernels and of the exponent formula) on a level-3 Becke grid with an extra centre at the evaluation point; the discrepancy at the finest of three refinement levels must be within min(max(2 x last refinement step, 4e-3), 2e-2) of the feature scale and not be the worst of the three; states that differ only in plan, ladder or interpolator must agree to 8e-3. SDMX: the fast module must equal the reference-grade module to 1e-8 and the documented H_j^0, H_j^0d, H_j^1 integrals of the density matrix (times -1/4) to 2e-2 (measured 3e-5 for j=0,1 and <=6e-3 for j=2).",
+    note="Definition transcribed from the documentation is trusted; points with density < 1e-3 are outside the claim; the size of the truncation error itself is not claimed, only that it is controllable and converges to the documented integral.",
+    design="5/C02",
+)
+
 NOT_YET = {}
 
 
